@@ -84,8 +84,29 @@ def extract(ctx):
                     'DisjointSet::clear(); the PiggyList member is a scaffold over the ghost-visible node array (real PiggyList: piggylist unit)']
 
 
+def gen_preds(N):
+    """csize/INV/EVOLVE/STILL as loop-free, assignment-free C expressions unrolled for N nodes"""
+    R = range(N)
+    L = ['/* GENERATED by units/unionfind/unit.py for N = %d */' % N]
+    L.append('static unsigned csize(const struct uf *s, unsigned char label) { return %s; }' %
+             ' + '.join('((%d < s->n && s->set[%d] == label) ? 1u : 0u)' % (k, k) for k in R))
+    def inv_i(i):
+        uniq = ' && '.join('!(%d < s->n && isroot(s, %d) && s->set[%d] == s->set[%d])' % (j, j, j, i) for j in R if j != i) or '1'
+        return ('(!(%d < s->n) || (par(s, %d) < s->n && s->set[%d] < N && (isroot(s, %d) ? (rk(s, %d) < 8 && (1u << (rk(s, %d) & 7u)) <= csize(s, s->set[%d]) && %s) '
+                ': (keylt(s, %d, par(s, %d)) && s->set[%d] == s->set[par(s, %d)]))))' % (i, i, i, i, i, i, i, uniq, i, i, i, i))
+    L.append('static _Bool INV(const struct uf *s) { return s->n <= N && %s; }' % ' && '.join(inv_i(i) for i in R))
+    def ev_i(i):
+        sets = ' && '.join('(!(%d < a->n) || a->set[%d] != a->set[%d] || b->set[%d] == b->set[%d])' % (j, i, j, i, j) for j in R if j != i) or '1'
+        return ('(!(%d < a->n) || ((isroot(a, %d) || (!isroot(b, %d) && b->frank[%d] == a->frank[%d])) && keyrank(b, %d) >= keyrank(a, %d) && %s))' % (i, i, i, i, i, i, i, sets))
+    L.append('static _Bool EVOLVE(const struct uf *a, const struct uf *b) { return INV(b) && b->n == a->n && %s; }' % ' && '.join(ev_i(i) for i in R))
+    L.append('static _Bool STILL(const struct uf *a, const struct uf *b) { return b->n == a->n && %s; }' % ' && '.join(
+        '(!(%d < a->n) || (isroot(a, %d) == isroot(b, %d) && (!isroot(a, %d) || rk(a, %d) == rk(b, %d)) && a->set[%d] == b->set[%d]))' % (i, i, i, i, i, i, i, i) for i in R))
+    return '\n'.join(L) + '\n'
+
+
 def harnesses(ctx):
     cpp = os.path.join(HERE, 'wrappers.cpp')
+    ctx.write('uf_gen.h', gen_preds(4 if ctx.tier == 'quick' else 5))
     c = [os.path.join(HERE, 'contracts.c')]
     N = 4 if ctx.tier == 'quick' else 5
     D = 'souffle::DisjointSet::'
@@ -97,7 +118,7 @@ def harnesses(ctx):
     for mode, tag in (('', ''), ('VX_SEQ', '.seq')):
         defs = ['VX_N=%d' % N] + ([mode] if mode else [])
         what = 'under interference (rely/guarantee)' if not mode else 'sequential functional contract (silent environment)'
-        hs.append(Harness('uf.findNode' + tag, 'harness_findNode', cpp=cpp, c=c, defines=defs, enforce='h_findNode', unwind=N + 2, bounded=bnd, backend='kissat',
+        hs.append(Harness('uf.findNode' + tag, 'harness_findNode', cpp=cpp, c=c, defines=defs, enforce='h_findNode', unwind=N + 2, bounded=bnd,
                           must_have=['postcondition', 'findNode.0 invariant base', 'findNode.0 invariant step', 'G\\.'],
                           clause='findNode %s: returns a node of the same class that was a root at some instant; every own step is a path-halving step keeping INV (no cycles)' % what,
                           funcs=[D + 'findNode', D + 'get']))
